@@ -548,6 +548,21 @@ func delPeer(t *Torrent, p *peer.Peer) bool {
 			t.peers = nil
 		}
 	}
+	// the dying peer no longer reads its mailbox, release any chunk
+	// requests that it never saw
+drain:
+	for {
+		select {
+		case e := <-p.Event:
+			if r, ok := e.(peer.PeerRequest); ok {
+				for _, c := range r.Chunks {
+					noteInFlight(t, c, false)
+				}
+			}
+		default:
+			break drain
+		}
+	}
 	// at this point, the dying peer won't reply to a GetPex request
 	addr := p.GetAddr()
 	if addr.Port() > 0 {
